@@ -229,6 +229,15 @@ pub fn run(tier: Tier) -> i32 {
     let sc = scenarios(tier);
     let d = tier.pick(3, 4);
     run_link_scenarios(&mut rep, "m2", &sc, d, tier.pick(120.0, 3000.0));
+    {
+        let ks: Vec<usize> = tier.pick(vec![257, 1100], vec![255, 256, 257, 1024, 1100, 5000]);
+        for &k in &ks {
+            if let Some(v) = super::c02::scale_case(k, Kind::Ordered) {
+                rep.violation("scale", v, J::obj().set("kind", J::s("scale")).set("k", J::i(k as u64)));
+            }
+        }
+        rep.add_sweep("scale", ks.len() as u64, ks.len() as u64, 1, vec![format!("k in {:?} messages buffered while message #0 is missing (head-of-line), early packets replayed, then recovery", ks)]);
+    }
     if rep.machinery.is_none() {
         rep.rule("M1 (API soup): every interleaving up to depth D of send / update / flush / deliver / drop / duplicate / receive on a real client and server connection with <= 3 packets in flight per direction; prefix oracle after every call, and in every state a probe on a clone: deliver what is in flight, 8 fault-free ticks, everything submitted must have arrived");
         super::soup::run_soup(&mut rep, tier, "soup", Kind::Ordered, super::soup::O_ORDER, &["C01/"]);
